@@ -230,7 +230,31 @@ class Engine(object):
 
         assembler = rec.assembler
         if self.oracle == "fresh_dense" and assembler == "fmm":
-            assembler = "dense"
+            # dense counterpart of the weak form (also for spaces the dense assembler rejects), range map from
+            # the library in a fresh process
+            w = self.model_weak(rec, vector, assembler="dense_counterpart")
+            if isinstance(w, Failure):
+                return w
+            key = canonical(["strong_dense", rec.spec, rec.dom.spec, rec.dual.spec, rec.dom.grid_index,
+                             rec.dual.grid_index, rec.dom is rec.dual, self.case["grids"], rec.precision, vector, gvec])
+
+            def compute_dense():
+                try:
+                    with env.fresh_process(gvec):
+                        from bempp_cl.api.assembly.discrete_boundary_operator import DenseDiscreteBoundaryOperator
+                        from bempp_cl.api.utils.helpers import get_inverse_mass_matrix
+
+                        if rec.dom is rec.dual:
+                            (dom,) = self._fresh_spaces([rec.dom])
+                            dual = dom
+                        else:
+                            dom, dual = self._fresh_spaces([rec.dom, rec.dual])
+                        inv = get_inverse_mass_matrix(dom, dual)
+                        return np.asarray((inv * DenseDiscreteBoundaryOperator(np.asarray(w))).to_dense())
+                except Exception as e:  # noqa: BLE001
+                    return Failure(e)
+
+            return MODEL_CACHE.get(key, compute_dense)
         key = canonical(
             ["strong", rec.spec, rec.dom.spec, rec.dual.spec, rec.dom.grid_index, rec.dual.grid_index,
              rec.dom is rec.dual, self.case["grids"], assembler, rec.precision, vector, gvec]
